@@ -64,9 +64,12 @@ class Op:
         self.reply = None
         self.extra = kw             # e.g. bad-put parameters
         self.pieces = None
+        # `path` is the canonical key every oracle uses; `wire` is the spelling sent to the hub
+        # (`./f`, `d//g`, `d/./g` name the same file and are accepted by the hub)
+        self.wire = kw.pop("wire", None) or path
 
     def brief(self):
-        return {"client": self.client, "op": self.kind, "path": self.path, "expected": (self.expected[:12] if isinstance(self.expected, str) else self.expected), "content": self.content, "call": self.call, "ret": self.ret, "reply": ({k: (v[:12] if isinstance(v, str) and len(v) == 64 else v) for k, v in self.reply.items() if k not in ("bytes", "map")} if self.reply else None)}
+        return {"client": self.client, "op": self.kind, "path": self.path if self.wire == self.path else "%s (sent as %s)" % (self.path, self.wire), "expected": (self.expected[:12] if isinstance(self.expected, str) else self.expected), "content": self.content, "call": self.call, "ret": self.ret, "reply": ({k: (v[:12] if isinstance(v, str) and len(v) == 64 else v) for k, v in self.reply.items() if k not in ("bytes", "map")} if self.reply else None)}
 
 
 class Client:
@@ -106,6 +109,7 @@ class HubRun:
         self.kills = []
         self.kill_gate_kinds = []
         self.b3cache = {}
+        self.root_alias = {}       # server index -> suffix such as "/." (another spelling of the same root)
         rmtree(workdir)
         os.makedirs(self.root)
         for rel, key in initial.items():
@@ -141,7 +145,7 @@ class HubRun:
                 except OSError:
                     pass
             env = shim_env(base_env(self.home), gate=self.sockpath, root=self.root, tag=str(s.idx), argv1="serve", log=os.path.join(self.wd, "tr"))
-            s.proc = subprocess.Popen([COPIA, "serve", self.root], stdin=r_in, stdout=w_out, stderr=subprocess.PIPE, env=env, start_new_session=True)
+            s.proc = subprocess.Popen([COPIA, "serve", self.root + self.root_alias.get(s.idx, "")], stdin=r_in, stdout=w_out, stderr=subprocess.PIPE, env=env, start_new_session=True)
             os.close(r_in)
             os.close(w_out)
             s.stdin_w = w_in
@@ -296,7 +300,7 @@ class HubRun:
         if k == "Close":
             return ["CLOSE"]
         if k == "Get":
-            return [cbor.req_get(op.path)]
+            return [cbor.req_get(op.wire)]
         spec = op.expected_spec
         if spec == "seen":
             exp = c.seen.get(op.path)
@@ -312,7 +316,7 @@ class HubRun:
             exp = spec
         op.expected = exp
         if k == "Delete":
-            return [cbor.req_delete(op.path, exp)]
+            return [cbor.req_delete(op.wire, exp)]
         if k == "Put":
             data = self.contents[op.content]
             h = self.hash_of(op.content)
@@ -321,7 +325,7 @@ class HubRun:
             body = data[: op.extra["send_len"]] if "send_len" in op.extra else data
             if "extra_bytes" in op.extra:
                 body = body + op.extra["extra_bytes"]
-            pieces = [cbor.req_put(op.path, exp, declared_len, declared_hash)]
+            pieces = [cbor.req_put(op.wire, exp, declared_len, declared_hash)]
             npieces = op.extra.get("pieces", 1)
             if body:
                 cuts = sorted({(len(body) * i) // npieces for i in range(1, npieces)})
